@@ -846,3 +846,48 @@ func c19persistIndependent(c *Ctx, r *Result) {
 	}
 	r.Floor("C19.5", 8)
 }
+
+func init() {
+	reg := registry["C19"]
+	reg.Meta.Rules["C19.6"] = "a rebalancing option reaches nothing but rebalancing: in the root package a value derived from a rebalancing option/statistic is passed only to a parameter that is itself a rebalancing parameter (named rebalance*, or of a rebalancing function/config); passed as anything else (a `reuse`, `cache`, `skip` flag) it makes which structures are loaded or written depend on the configuration"
+	reg.Rules = append(reg.Rules, func(c *Ctx, r *Result) {
+		isR := func(s string) bool {
+			ls := strings.ToLower(s)
+			return strings.Contains(ls, "rebalanc") || strings.Contains(ls, "lazy") || strings.Contains(ls, "incremental") || strings.Contains(ls, "smart")
+		}
+		n := 0
+		for _, fn := range c.LibFuncs() {
+			if shortPkg(fnPkgPath(fn)) != "hdf5" || fn.Blocks == nil || isR(fn.Name()) {
+				continue
+			}
+			if fn.Parent() != nil && isR(fn.Parent().Name()) {
+				continue
+			}
+			for _, site := range callsIn(fn) {
+				callee := site.Common().StaticCallee()
+				if callee == nil || !inModule(fnPkgPath(callee)) {
+					continue
+				}
+				args := site.Common().Args
+				for i, a := range args {
+					if b, ok := a.Type().Underlying().(*types.Basic); !ok || b.Info()&(types.IsBoolean|types.IsInteger|types.IsFloat) == 0 {
+						continue // options structs and writers are plumbing (C19.2), flags and numbers are decisions
+					}
+					if !c.derivesFromRebalancing(a, 0, map[ssa.Value]bool{}) {
+						continue
+					}
+					n++
+					pname := ""
+					if i < len(callee.Params) {
+						pname = callee.Params[i].Name()
+					}
+					ok := isR(pname) || isR(callee.Name()) || shortPkg(fnPkgPath(callee)) == "rebalancing"
+					r.Check(ok, "C19.6", c.Name(fn)+"#"+c.Name(callee)+"#option-reaches-only-rebalancing", c.InstrPos(site.(ssa.Instruction)), "a value derived from the rebalancing configuration is passed to parameter `"+pname+"` of "+c.Name(callee))
+				}
+			}
+		}
+		if n == 0 {
+			r.Errorf("C19.6: no rebalancing-derived scalar argument found in the root package")
+		}
+	})
+}
